@@ -87,6 +87,8 @@ def m_part(run, scr, nat, table, oracle):
         (None = unconstrained boolean, legal only when the two units have identical fields)"""
         sem = smt.RealSem()
         mods = dict(models.STD_MODELS)
+        mods.update(models.MORE_MODELS)
+        mods.update(models.VEC_MODELS)
         mods[r"<convert::PhysicalQuantity as PartialEq>::eq$"] = lambda it, a, c: SV("bool", sem.simplify("(= %s %s)" % (a[0].expr, a[1].expr)))
         mods[r"<convert::PhysicalQuantity as PartialEq>::ne$"] = lambda it, a, c: SV("bool", sem.simplify("(not (= %s %s))" % (a[0].expr, a[1].expr)))
 
